@@ -149,6 +149,12 @@ Definition safe_name (T:table) (s:bs) : bs :=
 Definition quote_with (esc:bs -> bs) (s:bs) : bs :=
   match s with [] => [] | _ => dq_char :: esc s ++ [dq_char] end.
 
+(* quote after fixes/C11-2: strings.NewReplacer(`\`, `\\`, `"`, `\"`).Replace(s) *)
+Definition qesc1 (c:ascii) : bs :=
+  if aeqb c bsl_char then [bsl_char; bsl_char] else if aeqb c dq_char then [bsl_char; dq_char] else [c].
+Definition quote_esc (s:bs) : bs := flat_map qesc1 s.
+Definition quote (s:bs) : bs := quote_with quote_esc s.
+
 (* ---- SyslLexer.g4 ---- *)
 (* Name : ('%'[0-9a-fA-F][0-9a-fA-F])*[a-zA-Z_]([-a-zA-Z0-9_]|('%'[0-9a-fA-F][0-9a-fA-F]))*  (whole string) *)
 Definition is_name_body (c:ascii) : bool := is_name_start c || is_digit c || aeqb c "-".
@@ -196,6 +202,10 @@ Inductive outcome (A:Type) := Ok (a:A) | Panic.
 Arguments Ok {A} a. Arguments Panic {A}.
 Definition must_unescape (s:bs) : outcome bs :=
   match path_unescape s with None => Panic | Some t => Ok (trim_space t) end.
+
+(* strings.ToLower on ASCII letters (bytes >= 0x80 are left alone: only used on escaped names, which are ASCII) *)
+Definition lower1 (c:ascii) : ascii := if is_upper c then ascii_of_N (code c + 32) else c.
+Definition lower (s:bs) : bs := map lower1 s.
 
 (* conversions used by case files and tables *)
 Definition of_codes (l:list N) : bs := map ascii_of_N l.
